@@ -137,7 +137,7 @@ def run_cases(b, cases, workdir):
             os.unlink(op)
         inner = ["env", "LD_PRELOAD=" + cf.preload(b)] + (["%s=%s" % kv for kv in cf.SAN_ENV.items()] if b["variant"].startswith("asan") else []) + [
                  "XDRV_INI=" + os.path.join(ctx.etc, "snoopy.ini"), os.path.join(c.BUILD, "xdrv"), sp, op]
-        cmd = (["unshare", "-u", "-p", "-f", "--mount-proc"] if can_ns else []) + inner
+        cmd = (["unshare", "-u", "-p", "-f", "--kill-child", "--mount-proc"] if can_ns else []) + inner
         try:
             subprocess.run(cmd, env={"PATH": "/usr/sbin:/usr/bin:/sbin:/bin"}, capture_output=True, timeout=1500, cwd=ctx.w, stdin=subprocess.DEVNULL)
         except subprocess.TimeoutExpired:
